@@ -105,13 +105,17 @@ def inst_designs():
         {"P_CONST": ("const", 5, 4, False), "P_SCONST": ("const", -3, 4, True)},
         {"P_QUOTE": 'a"b\\c', "P_NL": "x\ny"},
         {"P_ZERO": 0, "P_31": 2 ** 31, "P_M31": -(2 ** 31)},
+        # integers around and beyond the 32-bit boundary, both signs (sized by the back end itself)
+        {"P_M31M1": -(2 ** 31) - 1, "P_WNEG": -3_000_000_000, "P_BIGNEG": -(10 ** 12), "P_31M1": 2 ** 31 - 1},
+        {"P_32M1": 2 ** 32 - 1, "P_M1": -1, "P_M63": -(2 ** 63), "P_M32": -(2 ** 32), "P_M32M5": -(2 ** 32) - 5},
     ]
     for pi, params in enumerate(params_pool):
         for widths in ((1, 1, 1), (3, 2, 0), (0, 4, 2)):
             for place in (0, 1, 2):
                 for conn in ("sig", "slice", "cat", "const"):
                     yield {"kind": "inst", "params": params, "widths": widths, "place": place, "conn": conn, "padslice": 0,
-                           "attrs": {"keep": 1, "note": "n" + str(pi)} if pi % 2 else {}}
+                           "attrs": ({"keep": 1, "note": "n" + str(pi)} if pi % 2 else {}) if pi < 6 else
+                                    {"off": -3_000_000_000, "big": 2 ** 40 + 1, "neg": -5, "edge": -(2 ** 31) - 1}}
     # partially used I/O ports: an instance / I/O buffer in a (sub)module uses a slice of the port that does not start at bit 0
     for place in (0, 1, 2):
         for padw in (2, 3, 5):
